@@ -221,6 +221,12 @@ func (Prop) Run(t *core.Tape, o core.RunOpts) *core.Result {
 		res.Violation = s.Viol
 	}
 	res.Infra = s.Infra
+	if res.Infra != "" && entropy != vrand.EUniform && res.Violation == nil {
+		// a rejection loop that never ends because the injected entropy is stuck is the
+		// fault's doing, not the code's and not the harness's: no verdict for this run
+		res.Infra = ""
+		res.Probes.Inc("no_verdict_budget_exhausted_under_entropy_fault")
+	}
 	res.TraceHash = s.TraceHash()
 	res.Trace = s.Trace
 	res.Steps = s.Steps
